@@ -79,6 +79,15 @@ func apiStormBody(variant string) func() {
 			at("cancel", 2*time.Second, func() { a.Hub.CancelPairingWithSKI(b.SKI) })
 			at("detail", 2*time.Second, func() { b.Hub.PairingDetailForSki(a.SKI) })
 			at("auto", 2*time.Second, func() { b.Hub.SetAutoAccept(true) })
+		case "two-peers":
+			// a third node connects to A at the same time as B: two connections to different SKIs make progress concurrently
+			c := hubx.NewNode("C", 2, 4713)
+			a.Hub.RegisterRemoteSKI(c.SKI)
+			c.Hub.RegisterRemoteSKI(a.SKI)
+			c.Start()
+			at("detailC", 3*time.Millisecond, func() { a.Hub.PairingDetailForSki(c.SKI) })
+			at("unregC", 3*time.Second, func() { a.Hub.UnregisterRemoteSKI(c.SKI) })
+			at("discB", 3*time.Second, func() { a.Hub.DisconnectSKI(b.SKI, "x") })
 		case "mdns-churn":
 			at("unann", 1*time.Second, func() { a.Mdns.UnannounceMdnsEntry() })
 			at("ann", 1*time.Second, func() { _ = a.Mdns.AnnounceMdnsEntry() })
@@ -117,12 +126,12 @@ func c20Scenarios(r *hx.Run) []hx.Scenario {
 	}
 	add := func(name string, body func()) {
 		dd := d
-		if strings.HasPrefix(name, "api:") || strings.HasPrefix(name, "avahi:") {
+		if (strings.HasPrefix(name, "api:") && name != "api:two-peers") || strings.HasPrefix(name, "avahi:") || strings.HasPrefix(name, "converge:swap=true") {
 			dd = 1 // the concurrent-API scenarios get delay bound 1 in both tiers
 		}
 		out = append(out, hx.Scenario{Name: "c20:" + name, Body: withRaces(body), Bounds: simrt.Bounds{Preempt: dd, Fault: 0, Total: dd}, Cfg: cfg})
 	}
-	for _, v := range []string{"during-handshake", "close-storm", "unregister-shutdown", "pending", "mdns-churn"} {
+	for _, v := range []string{"during-handshake", "close-storm", "unregister-shutdown", "pending", "mdns-churn", "two-peers"} {
 		add("api:"+v, apiStormBody(v))
 	}
 	for _, c := range []string{"disconnectA", "unregisterA", "cutLink", "peerEOF", "shutdownA", "writeAfterPeerClose"} {
